@@ -121,9 +121,11 @@ Definition resolve_escapes (s : str) : option str :=
 Fixpoint scan_literal (inp : str) (acc : str) : option (str * str) :=
   match inp with
   | [] => None
-  | 34 :: rest => Some (rev acc, rest)
-  | 92 :: rest => match rest with c :: rest' => scan_literal rest' (c :: 92 :: acc) | [] => None end
-  | c :: rest => scan_literal rest (c :: acc)
+  | c :: rest =>
+      if c =? 34 then Some (rev acc, rest)
+      else if c =? 92 then
+        match rest with c' :: rest' => scan_literal rest' (c' :: 92 :: acc) | [] => None end
+      else scan_literal rest (c :: acc)
   end.
 
 Inductive tok := TokText (s : str) | TokBool (b : bool) | TokBadEscape | TokIncomplete | TokNone.
@@ -137,13 +139,13 @@ Fixpoint take_ident (inp : str) (acc : str) : str * str :=
 (* a text-like token at the head of the input (complete input: an identifier ends at the end) *)
 Definition text_token (inp : str) : tok * str :=
   match inp with
-  | 34 :: rest =>
-      match scan_literal rest [] with
-      | Some (raw, rest') => (match resolve_escapes raw with Some t => TokText t | None => TokBadEscape end, rest')
-      | None => (TokIncomplete, [])
-      end
   | c :: rest =>
-      if is_identifier_start c then
+      if c =? 34 then
+        match scan_literal rest [] with
+        | Some (raw, rest') => (match resolve_escapes raw with Some t => TokText t | None => TokBadEscape end, rest')
+        | None => (TokIncomplete, [])
+        end
+      else if is_identifier_start c then
         let (id, rest') := take_ident rest [c] in
         (if str_eqb id s_true then TokBool true else if str_eqb id s_false then TokBool false else TokText id, rest')
       else (TokNone, inp)
